@@ -209,10 +209,18 @@ def handleRunHmmer (j : Json) : R Json := do
   let genes ← listOf (listOf rawHmmOfJson) (← fld j "genes")
   let filt := boolFD j "filter" true
   let out := genes.map fun g => runHmmerGene cut minScore maxEv g filt
+  -- the whole record in hmmscan order: [locus, ident, start, end, score, evalue]
+  let raw ← listOf (fun r => do
+      return ((← asInt (← idx r 0)), (⟨⟨← asInt (← idx r 1), ← asInt (← idx r 2), ← asInt (← idx r 3), ← asInt (← idx r 4)⟩,
+              ← asInt (← idx r 5)⟩ : RawHmm))) (fldD j "raw" (jArr []))
+  let record := runHmmerRecord cut minScore maxEv raw filt
   return jObj [
     ("model", jArr (out.map fun o => match o with
       | .ok l => jObj [("ok", jArr (l.map hhitToJson))]
       | .error e => jObj [("err", Json.str (herr e))])),
+    ("record", match record with
+      | .ok l => jArr (l.map fun (g, h) => jArr [toJson g, hhitToJson h])
+      | .error e => jObj [("err", Json.str (herr e))]),
     ("nontrivial", b ((genes.zip out).any fun (g, o) => match o with | .ok l => l.length < g.length | _ => false))]
 
 def handleRefineRecord (j : Json) : R Json := do
